@@ -7,12 +7,26 @@ open B CaseModel
 
 namespace LinePipeline
 
-/-- delimiter byte: ASCII, not a letter or digit, not `-` or `_` -/
-def neutralByte (c : UInt8) : Bool := decide (c.toNat < 128) && !isAlnum c && c != 45 && c != 95
+/-- delimiter byte: ANY byte that is not an ASCII letter or digit and not `-` or `_` — ASCII punctuation, white space and
+    control bytes, and every byte of a non-ASCII character (typographic quotes, CJK brackets, a byte-order mark …) -/
+def neutralByte (c : UInt8) : Bool := !isAlnum c && c != 45 && c != 95
 
 def NeutralDelim (d : Bytes) : Prop := ∀ c ∈ d, neutralByte c = true
 
 instance (d : Bytes) : Decidable (NeutralDelim d) := by unfold NeutralDelim; infer_instance
+
+/-- the text after the occurrence starts at a character boundary (always so in a valid UTF-8 line whose occurrence is
+    ASCII): its first byte is not a UTF-8 continuation byte -/
+def CharStart (d : Bytes) : Prop := ∀ z, d.head? = some z → Edits.isCont z = false
+
+instance (d : Bytes) : Decidable (CharStart d) := by
+  unfold CharStart
+  cases d with
+  | nil => exact isTrue (fun z h => by cases h)
+  | cons c d =>
+    by_cases h : Edits.isCont c = false
+    · exact isTrue (fun z hz => by simp only [List.head?_cons, Option.some.injEq] at hz; rw [← hz]; exact h)
+    · exact isFalse (fun hh => h (hh c rfl))
 
 -- ordering of the alternatives ------------------------------------------------------------------------------------------
 
